@@ -965,6 +965,14 @@ func runC16(c *CaseCtx) (res CaseResult) {
 		k := r.Intn(len(all) + 1)
 		f1, err1 := am.NewFunc(fn.Interface(), all[:k]...)
 		f2, err2 := am.NewFunc(fn.Interface(), all...)
+		if r.Intn(2) == 0 {
+			// the caller reuses its list afterwards: the functions keep the
+			// defaults they were constructed with
+			for i := range all {
+				all[i] = am.Named("overwritten", T5{ID: -7})
+			}
+			res.obs("default_lists_overwritten_after_construction", 1)
+		}
 		if err1 == nil && err2 == nil {
 			// f1 is called with overrides for everything
 			var over []am.Arg
